@@ -168,7 +168,7 @@ impl<'n, 'd> Multipart<'n, 'd> {
     pub fn add_stream<N, R, F>(&mut self, name: N, stream: R, filename: Option<F>, mime: Option<Mime>) -> &mut Self
     where
         N: Into<Cow<'n, str>>,
-        R: Read + 'd,
+        R: Read + Seek + 'd,
         F: Into<Cow<'n, str>>,
     {
         self.fields.push(Field {
@@ -236,14 +236,14 @@ impl fmt::Debug for Data<'_, '_> {
 struct Stream<'n, 'd> {
     filename: Option<Cow<'n, str>>,
     content_type: Mime,
-    stream: Box<dyn Read + 'd>,
+    stream: Box<dyn ReadSeek + 'd>,
 }
 
 /// The result of [`Multipart::prepare()`](struct.Multipart.html#method.prepare).
 ///
 /// Implements `Read`, contains the entire request body.
 ///
-/// Individual files/streams are dropped as they are read to completion.
+/// Individual files/streams are kept after they are read to completion so that `rewind` can start over.
 ///
 /// ### Note
 /// The fields in the request may have been reordered to simplify the preparation step.
@@ -251,6 +251,8 @@ struct Stream<'n, 'd> {
 pub struct PreparedFields<'d> {
     text_data: Cursor<Vec<u8>>,
     streams: Vec<PreparedField<'d>>,
+    // number of entries of `streams`, counted from the back, that have been read to completion
+    streams_done: usize,
     end_boundary: Cursor<String>,
     content_len: Option<u64>,
 }
@@ -305,6 +307,7 @@ impl<'d> PreparedFields<'d> {
         Ok(PreparedFields {
             text_data: Cursor::new(text_data),
             streams,
+            streams_done: 0,
             end_boundary: Cursor::new(boundary),
             content_len: if use_len { Some(content_len) } else { None },
         })
@@ -323,6 +326,19 @@ impl<'d> PreparedFields<'d> {
         // Get just the bare boundary string
         &boundary[4..boundary.len() - 2]
     }
+
+    /// Start over from the first byte, so that the fields can be written out again
+    /// (a request body is written once per redirect hop).
+    pub fn rewind(&mut self) -> io::Result<()> {
+        self.text_data.set_position(0);
+        for field in &mut self.streams {
+            field.header.set_position(0);
+            field.stream.rewind()?;
+        }
+        self.streams_done = 0;
+        self.end_boundary.set_position(0);
+        Ok(())
+    }
 }
 
 impl Read for PreparedFields<'_> {
@@ -339,13 +355,14 @@ impl Read for PreparedFields<'_> {
 
             total_read += if !cursor_at_end(&self.text_data) {
                 self.text_data.read(buf)?
-            } else if let Some(mut field) = self.streams.pop() {
-                match field.read(buf) {
-                    Ok(0) => continue,
-                    res => {
-                        self.streams.push(field);
-                        res
+            } else if self.streams_done < self.streams.len() {
+                let idx = self.streams.len() - 1 - self.streams_done;
+                match self.streams[idx].read(buf) {
+                    Ok(0) => {
+                        self.streams_done += 1;
+                        continue;
                     }
+                    res => res,
                 }?
             } else {
                 self.end_boundary.read(buf)?
@@ -356,9 +373,13 @@ impl Read for PreparedFields<'_> {
     }
 }
 
+trait ReadSeek: Read + Seek {}
+
+impl<T: Read + Seek> ReadSeek for T {}
+
 struct PreparedField<'d> {
     header: Cursor<Vec<u8>>,
-    stream: Box<dyn Read + 'd>,
+    stream: Box<dyn ReadSeek + 'd>,
 }
 
 impl<'d> PreparedField<'d> {
@@ -380,7 +401,7 @@ impl<'d> PreparedField<'d> {
         boundary: &str,
         content_type: &Mime,
         filename: Option<&str>,
-        stream: Box<dyn Read + 'd>,
+        stream: Box<dyn ReadSeek + 'd>,
     ) -> Self {
         let mut header = Vec::new();
 
